@@ -421,6 +421,54 @@ theorem index_alias_witness :
   · intro h
     exact absurd (h _ (List.mem_singleton.2 rfl)) (by decide)
 
+/-- the program of corpus/C01/11-minmax-fact-index-reads-base.wuffs:
+`this.a[this.a[0] & 1] = args.x.min(no_more_than: 5)` -/
+def mmLhs : Expr :=
+  .index "this.a" 2 ⟨.u8, none, none⟩
+    (.binary .amp (.index "this.a" 2 ⟨.u8, none, none⟩ (.const 0)) (.const 1))
+def mmStore : Stmt := .assign mmLhs (.binary .bmin (.var "args.x" ⟨.u8, none, none⟩) (.const 5))
+/-- `this.a == [0, 9]`, `args.x == 1` -/
+def mmEnv : Env := fun k => if k = .cell "this.a" 1 then 9 else if k = .sc "args.x" then 1 else 0
+
+/--
+**minmax_alias_witness** (defect of the real checker found through this model, round 2
+follow-up; repaired by fixes/C01-minmax-facts-aliasing-store.patch).  After
+`lhs = a.min(no_more_than: b)` `bcheckAssignmentMaxMin` recorded `lhs <= a` and `lhs <= b`
+whenever the operand did not `Mention` the very expression `lhs` — also when the index of
+`lhs` reads the array stored to.  Here the operand `5` does not mention `lhs`, the store
+writes `this.a[0] = 1`, and afterwards `this.a[this.a[0] & 1]` is `this.a[1] == 9`: the
+fact `lhs <= 5` is false (the real checker accepted `this.b[this.a[this.a[0] & 1]]` on a
+6-element array from it: index 9).  The repaired rule records nothing here.
+-/
+theorem minmax_alias_witness :
+    mentions (.const 5) mmLhs = false ∧
+    evalI mmEnv (.binary .bmin (.var "args.x" ⟨.u8, none, none⟩) (.const 5)) = 1 ∧
+    evalI (execStmt mmEnv mmStore) mmLhs = 9 ∧
+    evalI (execStmt mmEnv mmStore) (.binary .le mmLhs (.const 5)) = 0 ∧
+    checkStmt [] mmStore = some [] := by
+  decide
+
+/-- … while for a target whose index does not read the array the facts are recorded:
+`y = x.min(no_more_than: 5)` gives `y == x.min(5)`, `y <= x`, `y <= 5` -/
+example :
+    checkStmt [] (.assign (.var "y" ⟨.u8, none, none⟩)
+      (.binary .bmin (.var "x" ⟨.u8, none, none⟩) (.const 5))) =
+    some [.binary .eq (.var "y" ⟨.u8, none, none⟩) (.binary .bmin (.var "x" ⟨.u8, none, none⟩) (.const 5)),
+          .binary .le (.var "y" ⟨.u8, none, none⟩) (.var "x" ⟨.u8, none, none⟩),
+          .binary .le (.var "y" ⟨.u8, none, none⟩) (.const 5)] := by
+  decide
+
+/-- the numeric built-ins in `bcheck`: `x.min(no_more_than: 5)` ∈ [0, 5],
+`x.low_bits(n: 3)` ∈ [0, 7], `x.high_bits(n: k)` with `k : base.u32[..= 2]` ∈ [0, 3];
+`x.low_bits(n: 8)` on a `base.u8` is rejected (parameter type `u32[..= 7]`) -/
+example :
+    let x : Expr := .var "x" ⟨.u8, none, none⟩
+    bcheck [] false (.binary .bmin x (.const 5)) = some (mkIR 0 5) ∧
+    bcheck [] false (.binary .lowbits x (.const 3)) = some (mkIR 0 7) ∧
+    bcheck [] false (.binary .highbits x (.var "k" ⟨.u32, none, some 2⟩)) = some (mkIR 0 3) ∧
+    bcheck [] false (.binary .lowbits x (.const 8)) = none := by
+  decide
+
 /-- Defect witness (repaired by fixes/C01-mod-shift-left-lower-bound.patch): the
 unrepaired bounds `[lo << k, min(hi << k, max)]` of `x ~mod<< 1` for `x : base.u8` in
 [128, 255] were the EMPTY interval [256, 255], although the value exists (e.g. 0 for
